@@ -151,6 +151,10 @@ def render(n) -> str:
     if k == "dotQ":
         return f"{render(n[1])}.dot(np.array({n[2]}) @ {render(n[3])})"
     if k == "dotP":
+        if len(n) > 4 and n[4] == "quadratic_form":
+            return f"quadratic_form({render(n[1])}, {n[2]})"
+        if len(n) > 4 and n[4] == "matmul":
+            return f"{render(n[1])}.dot(matmul({n[2]}, {render(n[3])}))"
         return f"{render(n[1])}.dot({n[2]} @ {render(n[3])})"
     if k == "msum":
         return f"{render(n[1])}.sum()"
